@@ -66,7 +66,7 @@ def check(inst, method):
     except TimeoutError:
         return [], "timeout", {}
     except Exception as e:
-        if "PulpSolverError" in type(e).__name__:
+        if "PulpSolverError" in type(e).__name__ and "Error while executing" not in str(e):
             return [], "solver-unavailable", {}
         import traceback
 
